@@ -32,7 +32,8 @@ EXPLANATION = (
     'context. R3: lists the whitelist filter rebuilds from sets are assigned only to registries '
     'ApiNamespace.normalize sorts, and normalize follows the filter. Decides these structural '
     'parts (closest of all properties to the behaviour itself).'
-    ' R5 (imported from C15-R3): the class-level typing-import tracker is reset at the start of every module, so output does not depend on what ran earlier in the process.')
+    ' R5 (imported from C15-R3): the class-level typing-import tracker is reset at the start of every module, so output does not depend on what ran earlier in the process.'
+    ' RD (decision drift, stonelint.conddrift): the tests of the functions this property is anchored in (stonelint.ownership) are compared with reference/conditions.json; a relation, polarity or connective changed over the same operands, or an operand purely added or dropped, is a violation; re-spellings and new or removed tests are not claimed.')
 ASSUMPTIONS = [
     'dicts preserve insertion order (CPython >= 3.7); a dict built in a deterministic order is '
     'ordered',
@@ -272,6 +273,11 @@ def run(pm, ctx):
     ctx.import_rules(pm, 'C15', {'C15-R3'}, 'C12-R5',
                      'the stub import tracker is cleared before every module (shared with '
                      'C15-R3)')
+
+    from ..conddrift import run_decisions
+    from ..ownership import OWN
+    run_decisions(pm, ctx, 'C12-RD', OWN['C12'])
+
 
 def _raw_unordered(ot, f, e, at):
     """Does expression e syntactically involve a set-built value (so that its
